@@ -5,10 +5,11 @@ Import ListNotations.
 Open Scope Z_scope.
 
 (* compact constructor used by the generated case files; flags: bit0 float, 1 opacity<1, 2 transform,
-   3 overflow, 4 clip, 5 grid item, 6 border-collapse, 7 hidden empty cell, 8 root clip *)
+   3 overflow, 4 clip, 5 grid item, 6 border-collapse, 7 hidden empty cell, 8 root clip, 9 flex item *)
 Definition I (id : Z) (k : kind) (p : position) (z : option Z) (t : tmat) (flags : Z) : info :=
   mkI id k p (Z.testbit flags 0) z (Z.testbit flags 1) (Z.testbit flags 2) t (Z.testbit flags 3)
-      (Z.testbit flags 4) (Z.testbit flags 5) (Z.testbit flags 6) (Z.testbit flags 7) (Z.testbit flags 8).
+      (Z.testbit flags 4) (Z.testbit flags 5) (Z.testbit flags 6) (Z.testbit flags 7) (Z.testbit flags 8)
+      (Z.testbit flags 9).
 
 (* the isinstance facts of a class as the harness measures them on the real classes:
    bit0 ParentBox, 1 BlockLevelBox, 2 TableCellBox, 3 (InlineBlockBox, InlineFlexBox, InlineGridBox),
@@ -46,11 +47,10 @@ Definition frompage_judge (c : box * pnode * list (kind * Z)) : nat :=
   ((if pnode_eqb (from_page (binfo page) (bkids page)) out && bits_ok bits then 0 else 1) +
    (if wf_page page then (if events_eqb (paint_ctx out) (appendix_E_page page) then 0 else 2) else 4))%nat.
 
-(* diagnostics for bit 2: which node breaks which clause of wf_node (1 z-index where it does not apply,
+(* diagnostics for bit 2: which node breaks which clause of wf_node (
    2 class of a box painted as a context, 3 shape of the children that stay in place) *)
 Definition wf_codes (root : bool) (b : box) : list (Z * nat) :=
   let i := binfo b in
-  (if wf_z i then [] else [(bid i, 1%nat)]) ++
   (if wf_ctx_kind root i then [] else [(bid i, 2%nat)]) ++
   (if wf_kids b then [] else [(bid i, 3%nat)]).
 Fixpoint wf_why_from (root : bool) (b : box) : list (Z * nat) :=
